@@ -242,6 +242,7 @@ pub fn main(tier: Tier, seed: u64) -> i32 {
         ("coin-toss seed changed after the commitment (multi-party toss)", vec!["rng_seed_multi"]),
         ("coin-toss seed changed after the commitment (pairwise toss)", vec!["rng_seed_pair"]),
         ("own check bit in the aShare decommitment changed before committing", vec!["fashare_dm"]),
+        ("two own check bits in the aShare decommitment changed before committing", vec!["fashare_dm", "fashare_dm#17"]),
         ("own d-value share changed before use and send", vec!["dvalue_bits"]),
         ("own Beaver d/e share changed before use and send", vec!["beaver_de"]),
     ];
@@ -259,6 +260,8 @@ pub fn main(tier: Tier, seed: u64) -> i32 {
             if *name == "rng_seed_pair" {
                 let k = (0..n).find(|k| *k != cfg.corrupted).unwrap();
                 specs.push(TapSpec { party: cfg.corrupted, name: format!("rng_seed_pair:{k}"), occ: Some(0), f: flip_first_bool() });
+            } else if let Some((base, occ)) = name.split_once('#') {
+                specs.push(TapSpec { party: cfg.corrupted, name: base.to_string(), occ: occ.parse().ok(), f: flip_first_bool() });
             } else {
                 specs.push(TapSpec { party: cfg.corrupted, name: name.to_string(), occ: Some(0), f: flip_first_bool() });
             }
@@ -270,8 +273,15 @@ pub fn main(tier: Tier, seed: u64) -> i32 {
         let cfg = &cfgs[*ci];
         let n = cfg.case.n();
         let honest: Vec<usize> = (0..n).filter(|p| *p != cfg.corrupted).collect();
-        if honest.iter().all(|p| r.outcomes[*p].0 == "Err") {
+        let all_err = honest.iter().all(|p| r.outcomes[*p].0 == "Err");
+        // the honest parties must detect the lie by a check of their own, not merely see the
+        // liar's own (honest) code abort and close the channel
+        let closed_only = all_err && honest.iter().all(|p| r.outcomes[*p].1.contains("Closed"));
+        if all_err && !closed_only {
             tap_detected += 1;
+        } else if closed_only {
+            let outs: Vec<String> = r.outcomes.iter().enumerate().map(|(p, o)| format!("p{p}:{}({})", o.0, o.1.chars().take(60).collect::<String>())).collect();
+            rep.violation(format!("peer_abort_only:tap:{}", taps[*ti].1.join("+")), format!("{}: {} -> {}", cfg.name, taps[*ti].0, outs.join(" ")), json!({"kind":"tap","case":cfg.case,"corrupted":cfg.corrupted,"seed":cfg.seed,"tap":taps[*ti].1}));
         } else {
             let outs: Vec<String> = r.outcomes.iter().enumerate().map(|(p, o)| format!("p{p}:{}({})", o.0, o.1.chars().take(40).collect::<String>())).collect();
             rep.violation(format!("undetected:tap:{}", taps[*ti].1[0]), format!("{}: {} -> {}", cfg.name, taps[*ti].0, outs.join(" ")), json!({"kind":"tap","case":cfg.case,"corrupted":cfg.corrupted,"seed":cfg.seed,"tap":taps[*ti].1}));
